@@ -215,6 +215,21 @@ one variable is now handed to AddWarrior two and three times, to one simulator
 and to two, with every mutation in between, against a run that passes an
 independent deep copy each time).
 
+Eleventh round: 17 more (one per property) on the theme "hand-over
+conventions between components" (signed vs unsigned, reduced vs raw, inclusive
+vs exclusive bounds, sentinel values, case, end-of-input tokens, before vs
+after a copy). 14 were reported at once. The three misses: a FOR counter
+matched without regard to case, so that a label `I` next to the counter `i`
+is replaced too (C08: the generated labels never differed from a counter in
+case only; one more surface variant renames the outside label, the EQU and the
+block label to `I`, `J`, `K`); `AddWarrior` normalising an entry point at or
+beyond the code length *in the caller's data* before copying it (C14: the
+isolation grid used well-formed data; 256 shapes of caller data - entry points
+at and beyond the length, empty code, fields beyond the core, spare capacity -
+must now come back untouched); `-F` reduced modulo the core size before the
+"0 means random" test (C17: the grid stopped at `-F M-1`; placements M, M+1,
+2M, 3M+5, 10.5M are now run).
+
 After these changes all NSEEDS are reported. The table is generated from the last
 run of every seed against the current machinery. (Two of the agents also
 pointed out defects of the unchanged tree while reading: D20 and D21 of
